@@ -28,7 +28,7 @@ def _prepare(spec_dir, cfg_name, consts, subst=None):
 def bfs(spec_dir, module, cfg_name, consts=None, *, timeout=1500, workers=1, subst=None, prefix=None):
     """Exhaustive exploration; returns (rows, stats). rows = every JSON value printed."""
     d = _prepare(spec_dir, cfg_name, consts, subst)
-    r = common.run_tlc_with_files(d, module, cfg_name, {}, timeout=timeout, workers=workers)
+    r = common.run_tlc_with_files(d, module, cfg_name, {}, timeout=timeout, workers=workers, heap="8g")
     if r["errors"]:
         raise common.Infra(f"{module}: " + "; ".join(r["errors"][:3]) + "\n" + common._tail(r["out"], 3000))
     rows = list(common.emitted(r["out"], prefix=prefix))
@@ -39,7 +39,7 @@ def bfs(spec_dir, module, cfg_name, consts=None, *, timeout=1500, workers=1, sub
 def sim(spec_dir, module, cfg_name, consts=None, *, num=500, depth=12, seed=1, timeout=900, subst=None, prefix=None):
     """Random walks through the same Next relation (tlc -simulate)."""
     d = _prepare(spec_dir, cfg_name, consts, subst)
-    r = common.run_tlc_with_files(d, module, cfg_name, {}, timeout=timeout, workers=1,
+    r = common.run_tlc_with_files(d, module, cfg_name, {}, timeout=timeout, workers=1, heap="8g",
                                   extra=["-simulate", f"num={num}", "-depth", str(depth), "-seed", str(seed)])
     if r["errors"]:
         raise common.Infra(f"{module} (simulate): " + "; ".join(r["errors"][:3]) + "\n" + common._tail(r["out"], 3000))
